@@ -12,6 +12,7 @@ fi
 trap 'git -C /repo checkout -- . 2>/dev/null' EXIT
 names=("$@"); [ ${#names[@]} -eq 0 ] && names=($(ls seeded))
 printf "%-34s %-6s %-8s %s\n" seeded property caught kinds
+RES="$HERE/seeded/last_run.tsv"; [ $# -eq 0 ] && : > "$RES"
 for n in "${names[@]}"; do
   d="seeded/$n"; [ -f "$d/patch.diff" ] || continue
   prop=$(python3 -c "import json;print(json.load(open('$d/meta.json'))['property'])")
@@ -24,4 +25,5 @@ for n in "${names[@]}"; do
   kinds=$(echo "$out" | grep -oE "kind=[a-z_]+" | sort -u | tr '\n' ' ')
   if [ $code -eq 1 ] && echo "$out" | grep -q "^VIOLATION property=$prop"; then r=yes; elif [ $code -eq 2 ]; then r="exit2"; else r=NO; fi
   printf "%-34s %-6s %-8s %s\n" "$n" "$prop" "$r" "$kinds"
+  printf "%s\t%s\t%s\t%s\n" "$n" "$prop" "$r" "$kinds" >> "$RES"
 done
